@@ -247,7 +247,7 @@ pub fn run(ctx: &Ctx) {
     if !g.full_floats {
         ctx.rec.exclude("full-precision float metadata switched off in the main search (open known finding); exercised by its own sub-check", 1);
     }
-    run_proptest(ctx, "roundtrip", PtCfg::new(ctx.lanes, ctx.tier.pick(1000, 12000)), || strategy(g), check);
+    run_proptest(ctx, "roundtrip", PtCfg::new(ctx.lanes, ctx.tier.pick(1000, 60_000)), || strategy(g), check);
     let big = large_cases(ctx);
     run_list(ctx, "roundtrip-large", &big, check);
     probes(ctx);
